@@ -102,9 +102,17 @@ def gen_c07():
     return 0, out_all
 
 
+def gen_src_glue():
+    """C09: regenerate lean/RSVerif/Gen/SrcGlue.lean (the thin API layers)"""
+    o = os.path.join(VERIF, "lean", "RSVerif", "Gen", "SrcGlue.lean")
+    p = subprocess.run([sys.executable, os.path.join(VERIF, "translate", "rs2lean_glue.py"), "/repo", o],
+                       stdout=subprocess.PIPE, stderr=subprocess.STDOUT, text=True)
+    return p.returncode, p.stdout
+
+
 def gen_c09():
     out_all = ""
-    for g in (gen_src_envelope, gen_src_default):
+    for g in (gen_src_envelope, gen_src_default, gen_src_glue):
         rc, out = g()
         out_all += out
         if rc != 0:
@@ -151,6 +159,24 @@ def gen_statics():
     p = subprocess.run([sys.executable, os.path.join(VERIF, "translate", "statics.py"), "/repo", out],
                        stdout=subprocess.PIPE, stderr=subprocess.STDOUT, text=True)
     return p.returncode, p.stdout
+
+
+def gen_c14():
+    """C14: Statics.lean (target_feature attributes) + regenerate lean/RSVerif/Gen/SrcSelect.lean (DefaultEngine selection)"""
+    rc, out = gen_statics()
+    if rc != 0:
+        return rc, out
+    o = os.path.join(VERIF, "lean", "RSVerif", "Gen", "SrcSelect.lean")
+    p = subprocess.run([sys.executable, os.path.join(VERIF, "translate", "rs2lean_select.py"), "/repo", o],
+                       stdout=subprocess.PIPE, stderr=subprocess.STDOUT, text=True)
+    return p.returncode, out + p.stdout
+
+
+TECH_TRS = ("Lean 4 machine-checked proof (finite, exhaustive case analysis); the run-time selection of DefaultEngine::new and "
+            "DefaultEngine::eval_poly (cfg(target_arch) blocks, order of the feature tests, engine per branch, portable fallback) is "
+            "TRANSLATED from the current Rust source on every run (translate/rs2lean_select.py -> Gen/SrcSelect.lean) and proved equal to "
+            "the decision model; the #[target_feature] attributes are re-read by translate/statics.py; the rest by an exhaustive "
+            "feature-mask sweep of the implementation with the ISA trace hook")
 
 
 def gen_c16():
@@ -330,7 +356,7 @@ PROPS = {
         "selection code through a source port. Cannot exhibit an actual illegal-instruction trap (this CPU has AVX2).",
         "cases = feature masks (exhaustive) x workload",
         exhaustive=True,
-        pre_lean=gen_statics,
+        pre_lean=gen_c14, technique=TECH_TRS,
         design_ref="DESIGN.md §6 C14",
     ),
     "C15": P(
